@@ -5,7 +5,7 @@ from __future__ import annotations
 
 import ast
 
-from ..core import norm, walk_no_nested, call_name, last_attr, parent, dotted_name
+from ..core import norm, walk_cached as walk_no_nested, call_name, last_attr, parent, dotted_name
 
 SET_METHODS_RET_SET = {"union", "intersection", "difference", "symmetric_difference", "copy"}
 SET_CTORS = {"set", "frozenset"}
